@@ -9,6 +9,7 @@
 package zsimrt
 
 import (
+	mrand "math/rand"
 	"reflect"
 	"runtime"
 	"runtime/debug"
@@ -96,6 +97,9 @@ type Run struct {
 	byName   map[string]*G
 	Arrival  chan struct{}
 	AbortCh  chan struct{}
+	Seed     uint64 // run seed (math/rand replacement, R15)
+	rnd      *mrand.Rand
+	rndMu    sync.Mutex
 	tdSem    chan struct{} // teardown: one goroutine at a time runs its deferred functions
 	stalled  int
 	aborting bool
@@ -1179,6 +1183,62 @@ func Sleep(point string, d time.Duration) {
 	}
 	t := time.NewTimer(d)
 	Select(point, false, RecvCase(t.C))
+}
+
+// The global functions of math/rand in rewritten code (R15): one generator per run, seeded
+// by the run seed, so that jitter in the library is part of the replayable execution.
+func runRand() *mrand.Rand {
+	r := current()
+	if r == nil {
+		return nil
+	}
+	r.mu.Lock()
+	defer r.mu.Unlock()
+	if r.rnd == nil {
+		r.rnd = mrand.New(mrand.NewSource(int64(r.Seed) ^ 0x6a177e5))
+	}
+	return r.rnd
+}
+
+func randDo[T any](f func(*mrand.Rand) T, g func() T) T {
+	if rr := runRand(); rr != nil {
+		r := current()
+		r.rndMu.Lock()
+		defer r.rndMu.Unlock()
+		return f(rr)
+	}
+	return g()
+}
+
+func RandIntn(n int) int {
+	return randDo(func(r *mrand.Rand) int { return r.Intn(n) }, func() int { return mrand.Intn(n) })
+}
+func RandInt63n(n int64) int64 {
+	return randDo(func(r *mrand.Rand) int64 { return r.Int63n(n) }, func() int64 { return mrand.Int63n(n) })
+}
+func RandInt31n(n int32) int32 {
+	return randDo(func(r *mrand.Rand) int32 { return r.Int31n(n) }, func() int32 { return mrand.Int31n(n) })
+}
+func RandInt63() int64 { return randDo(func(r *mrand.Rand) int64 { return r.Int63() }, mrand.Int63) }
+func RandInt31() int32 { return randDo(func(r *mrand.Rand) int32 { return r.Int31() }, mrand.Int31) }
+func RandInt() int     { return randDo(func(r *mrand.Rand) int { return r.Int() }, mrand.Int) }
+func RandFloat64() float64 {
+	return randDo(func(r *mrand.Rand) float64 { return r.Float64() }, mrand.Float64)
+}
+func RandFloat32() float32 {
+	return randDo(func(r *mrand.Rand) float32 { return r.Float32() }, mrand.Float32)
+}
+func RandUint32() uint32 {
+	return randDo(func(r *mrand.Rand) uint32 { return r.Uint32() }, mrand.Uint32)
+}
+func RandUint64() uint64 {
+	return randDo(func(r *mrand.Rand) uint64 { return r.Uint64() }, mrand.Uint64)
+}
+func RandPerm(n int) []int {
+	return randDo(func(r *mrand.Rand) []int { return r.Perm(n) }, func() []int { return mrand.Perm(n) })
+}
+func RandShuffle(n int, swap func(i, j int)) {
+	randDo(func(r *mrand.Rand) int { r.Shuffle(n, swap); return 0 }, func() int { mrand.Shuffle(n, swap); return 0 })
 }
 
 // TimeSleep replaces time.Sleep in rewritten code (R13).
